@@ -287,8 +287,12 @@ def flight_stress_result(ctx, res, traces, thorough):
         ctx.cov["replay"]["flight_stress_" + name] = info
         if info["rounds"] != rounds[name]:
             raise vf.MachineryError("flight stress %s ran %d of %d rounds" % (name, info["rounds"], rounds[name]))
-        if info["shared_results"] < 4:
-            raise vf.MachineryError("flight stress %s: no shared lookups in the recorded histories (vacuous)" % name)
+    # vacuity: the recorded histories must contain shared lookups.  Judged over all stress families together: since
+    # followers of a capacity-refused leader regroup instead of sharing its refusal (fix 1d56406) a small family under
+    # an unlucky seed shares only a handful of results (seed 7, T3: 7 in one run, fewer than 4 in another)
+    if sum(i["shared_results"] for i in infos.values()) < 4:
+        raise vf.MachineryError("flight stress: no shared lookups in the recorded histories (vacuous): %s" % {
+            n: i["shared_results"] for n, i in infos.items()})
 
     def replay_obj(name):
         return {"driver": "flight-stress", "run": dict(STRESS[name][1], name=name, rounds=rounds[name]), "seed": ctx.seed,
